@@ -164,6 +164,12 @@ func runNGAPSweep(ctx *Ctx, prop string) {
 			// C04 (b): the reference encoding is accepted, decoded to the value, re-encoded to the same bytes
 			refSnap := append([]byte{}, refB...)
 			back, derr, dp := dec(refB)
+			// (only for whole PDUs through ngap.Decoder: the emulator decodes into a receive buffer it overwrites with the
+			// next message. aper.UnmarshalWithParams on a bare transfer container refers to its input by design on the
+			// unchanged tree - fixed-size strings are sub-slices of it - and nothing in the property forbids that)
+			if u.kind == "pdu" && !dp && derr == nil && ngapDecodeAliases != "" {
+				r.Violate("canonical/decoded-value-aliases-the-input-buffer/"+lc, cs, ngapDecodeAliases, replay)
+			}
 			if !bytes.Equal(refSnap, refB) {
 				r.Violate("canonical/decoder-modified-its-input/"+lc, cs, fmt.Sprintf("input %s, after decoding the same slice holds %s", shortHex(refSnap), shortHex(refB)), replay)
 				copy(refB, refSnap)
